@@ -134,12 +134,12 @@ pub fn get_opcode_bytes(
     };
 
     // A negative operand is the two's complement of an address in the top of memory, which is not in the zero page.
-    // Where there is only a one-byte form (e.g. immediate) it is the byte it looks like.
+    // Where there is only a one-byte form (e.g. immediate) it is the byte it looks like, as long as it fits in one.
     let has_absolute_form = possible_opcodes.iter().any(|(_, len)| *len == 2);
     for (opcode, operand_length) in possible_opcodes {
         match operand_length {
             0 => return Ok(v![opcode]),
-            1 if operand < 256 && (operand >= 0 || !has_absolute_form) => {
+            1 if operand < 256 && (operand >= 0 || (!has_absolute_form && operand >= -128)) => {
                 return Ok(v![opcode, operand as u8])
             }
             2 => {
